@@ -181,6 +181,37 @@ theorem first_empty_returns_checked (sig : Sig) :
 
 example : first { nIn := 1, variadic := false, isMethod := false, numOut := 1 } (.returns []) = .error .retlen := by rfl
 
+/-- `In()` without alternatives is a condition like any other: well-formed for every signature, it holds of no argument
+    tuple — so (by `invoke_spec` / `history_spec`) it is registered in its place, is skipped by every call, and the
+    `Return` that follows it belongs to *it*, not to the condition or default registered before. -/
+theorem in_empty_never_holds (eqv : Val → Val → Bool) (sig : Sig) (xs : List Val) :
+    (Cond.isIn []).WF sig ∧ ¬ Holds eqv (Cond.isIn []) xs := by
+  constructor
+  · intro a ha
+    cases ha
+  · simp [Holds, SatAlts]
+
+/-- `Return(0).When(1).Return(1).In().Return(2)`: calls with 1 keep answering 1, others the default; result 2 is unreachable -/
+example : (match build { nIn := 1, variadic := false, isMethod := false, numOut := 1 }
+      (Config.script { nIn := 1, variadic := false, isMethod := false, numOut := 1 }
+        { dflt := some 0, conds := [(.when [.val 1], 1), (.isIn [], 2)] }) with
+    | .ok w => w.run (· == ·) [.call false 0 [1], .call false 0 [1], .call false 0 [0]]
+    | .error _ => []) = [.out (.ret 1), .out (.ret 1), .out (.ret 0)] := by rfl
+
+/-- A `When(exprs...)` condition is registered **verbatim**: one expression per written argument, whatever the values
+    are — in particular a single variadic value that happens to be a slice (a `[]interface{}` passed as ONE element of
+    a `...interface{}` tail) is one expression and, by `variadic_elementwise`, is compared with one element of the call. -/
+theorem when_condition_verbatim (sig : Sig) (specs : List Spec) (rs : List Res)
+    (ha : arityOk sig specs.length) (hr : tupleResolves specs = true) :
+    newDefaultMatch sig specs rs = .ok { kind := .dflt specs, results := rs, cur := 0 } :=
+  newDefaultMatch_ok sig specs rs ha hr
+
+/-- `f(s, xs ...interface{})`, `When(2, 3)` where value 3 is a slice whose members are the values 0 and 1:
+    the call `f(2, 3)` matches, `f(2, 0, 1)` does not -/
+example : (match build { nIn := 2, variadic := true, isMethod := false, numOut := 1 } [.ret 1 0, .when (some [.val 2, .val 3]), .ret 1 1] with
+    | .ok w => w.run (· == ·) [.call false 0 [2, 3], .call false 0 [2, 0, 1]]
+    | .error _ => []) = [.out (.ret 1), .out (.ret 0)] := by rfl
+
 /-! ## The clauses of the property, declaratively -/
 
 private theorem find_none (eqv : Val → Val → Bool) (cfg : Config) (xs : List Val) (hnone : ∀ p ∈ cfg.conds, ¬ Holds eqv p.1 xs) :
